@@ -7,6 +7,7 @@ use kmer::minimiser::MinimiserGenerator;
 use std::io::{BufRead, Write};
 
 mod fileops;
+mod sched;
 
 pub fn hex(b: &[u8]) -> String {
     if b.is_empty() { "-".into() } else { b.iter().map(|x| format!("{:02x}", x)).collect() }
